@@ -1,8 +1,11 @@
 package main
 
 import (
+	"bytes"
 	"flag"
 	"fmt"
+	"math/rand"
+	"strconv"
 
 	"verif/harness/internal/abs"
 	"verif/harness/internal/read"
@@ -120,4 +123,131 @@ func gndlines(args []string) error {
 	rep.Sample(map[string]interface{}{"lines": inputs[len(inputs)/2]}, 3)
 	rep.Sample(map[string]interface{}{"lines": inputs[len(inputs)-1]}, 3)
 	return rep.Write(*out)
+}
+
+func init() {
+	register("v-ndbig", "large newline-delimited inputs by construction: root boundaries on index-buffer and block boundaries, long white-space runs (C08)", vndbig)
+}
+
+// vndbig builds inputs of thousands of small documents whose separators are
+// drawn from LF / CRLF / blank lines / white-space-only lines / long
+// white-space runs around the LF, shifted through every alignment, so that
+// line ends land on 64-byte block ends and on the ends of 1408-entry index
+// buffers.  Every input is valid by construction; an invalid twin (one
+// document split over two lines, padded with the same white space) must be
+// rejected.
+func vndbig(args []string) error {
+	fs := flag.NewFlagSet("v-ndbig", flag.ExitOnError)
+	out := fs.String("out", "-", "report")
+	seed := fs.Int64("seed", 1, "seed")
+	inputs := fs.Int("inputs", 40, "number of inputs")
+	prop := fs.String("property", "C08", "property id")
+	fs.Parse(args)
+	rng := rand.New(rand.NewSource(*seed))
+	rep := run.NewReport()
+	seps := []string{"\n", "\n", "\n\n", "\r\n", "\n \n", "\n\t\r\n", "\n\n\n"}
+	type nd struct {
+		text  []byte
+		want  []abs.Value
+		valid bool
+		desc  string
+	}
+	var cases []nd
+	for k := 0; k < *inputs; k++ {
+		var text []byte
+		var want []abs.Value
+		shift := k % 64
+		text = append(text, bytes.Repeat([]byte{' '}, shift)...)
+		docs := 700 + rng.Intn(2500)
+		style := k % 5
+		for d := 1; d <= docs; d++ {
+			lit := strconv.Itoa(d)
+			switch rng.Intn(4) {
+			case 0:
+				text = append(text, "["+lit+"]"...)
+				want = append(want, abs.Value{K: 'a', Arr: []abs.Value{{K: '#', Lit: lit}}})
+			case 1:
+				text = append(text, `{"a":`+lit+`}`...)
+				want = append(want, abs.Value{K: 'o', Obj: []abs.Member{{Key: []byte("a"), Val: abs.Value{K: '#', Lit: lit}}}})
+			case 2:
+				text = append(text, "[]"...)
+				want = append(want, abs.Value{K: 'a', Arr: []abs.Value{}})
+			default:
+				text = append(text, `["x",{}]`...)
+				want = append(want, abs.Value{K: 'a', Arr: []abs.Value{{K: 's', Str: []byte("x")}, {K: 'o', Obj: []abs.Member{}}}})
+			}
+			switch style {
+			case 0:
+				text = append(text, '\n')
+			case 1:
+				text = append(text, "\n\n"...) // a blank line after every document
+			case 2:
+				text = append(text, seps[rng.Intn(len(seps))]...)
+			case 3: // long white-space runs around the newline (whole 64-byte blocks of white space)
+				if rng.Intn(40) == 0 {
+					text = append(text, bytes.Repeat([]byte{' '}, 50+rng.Intn(140))...)
+					text = append(text, '\n')
+					text = append(text, bytes.Repeat([]byte{' '}, 50+rng.Intn(140))...)
+				} else {
+					text = append(text, '\n')
+				}
+			default:
+				text = append(text, "\r\n"...)
+			}
+		}
+		if k%3 == 0 { // no final newline
+			for len(text) > 0 && (text[len(text)-1] == '\n' || text[len(text)-1] == '\r' || text[len(text)-1] == ' ' || text[len(text)-1] == '\t') {
+				text = text[:len(text)-1]
+			}
+		}
+		cases = append(cases, nd{text: text, want: want, valid: true, desc: fmt.Sprintf("%d documents, separator style %d, shift %d", docs, style, shift)})
+		// invalid twin: one document spans two lines, with white-space runs of the same kind around the newline
+		pad := bytes.Repeat([]byte{' '}, 40+rng.Intn(160))
+		bad := append([]byte{}, text[:len(text)/2]...)
+		// cut at a line boundary
+		for len(bad) > 0 && bad[len(bad)-1] != '\n' {
+			bad = bad[:len(bad)-1]
+		}
+		bad = append(bad, "[1,"...)
+		bad = append(bad, pad...)
+		bad = append(bad, '\n')
+		bad = append(bad, pad...)
+		bad = append(bad, "2]\n[3]\n"...)
+		cases = append(cases, nd{text: bad, valid: false, desc: fmt.Sprintf("a document spanning two lines with %d bytes of white space around the newline, after %d bytes", len(pad), len(bad))})
+	}
+	for _, avx512 := range run.Kernels() {
+		run.SetKernel(avx512)
+		run.ParallelFor(len(cases), func(w, i int) {
+			c := &cases[i]
+			for _, cp := range []bool{true, false} {
+				cfg := run.Cfg{AVX512: avx512, Copy: cp, ND: true}
+				pj, err := run.Parse(append([]byte{}, c.text...), cfg, nil)
+				rep.Count("evaluations", 1)
+				if c.valid {
+					if err != nil {
+						rep.Add(run.Mismatch{Property: *prop, Sig: "valid-rejected:" + c.desc, Input: run.Hex(c.text[:min(len(c.text), 200)]), Cfg: cfg, Want: "accept (every line is a valid document)", Got: err.Error(), Detail: c.desc})
+					} else if cerr := read.Compare(pj, c.want); cerr != nil {
+						rep.Add(run.Mismatch{Property: *prop, Sig: "docs:" + c.desc, Cfg: cfg, Want: "the documents line by line", Got: "different", Detail: c.desc + ": " + cerr.Error()})
+					}
+				} else if err == nil {
+					rep.Add(run.Mismatch{Property: *prop, Sig: "spanning-accepted:" + c.desc, Cfg: cfg, Want: "reject (a document spans two lines)", Got: "accepted", Detail: c.desc})
+				}
+			}
+		})
+	}
+	run.SetKernel(true)
+	rep.Cases = int64(len(cases))
+	rep.Evaluations = rep.Counters["evaluations"]
+	rep.Nontrivial = int64(len(cases))
+	for i := 0; i < len(cases); i += 1 + len(cases)/5 {
+		rep.Sample(map[string]interface{}{"input": cases[i].desc, "bytes": len(cases[i].text)}, 6)
+	}
+	return rep.Write(*out)
+}
+
+func min(a, b int) int {
+	if a < b {
+		return a
+	}
+	return b
 }
